@@ -13,6 +13,11 @@ Structure (DESIGN §3 C05, Appendix B):
  (e) Any-typed fields: only JSON-able kinds are stored (xlsx._get_cell_value, xls._get_cell_values, ods).
 Known finding F6 (marker keys in document content) is excluded from the round-trip lemma through
 known_findings.json only; the unrestricted obligation is generated, fails, and is replayed on every run.
+Round 7 (contracts/c05reflect.py): verified instead of assumed / syntactic / bounded-only --
+ (f) `_get_type_registry` on its real body (processed-set induction over dir(data_types); module invariant "registry empty or complete");
+ (g) `cli._build_parser` (--json / --json-unit / --binary are store_true switches under the attribute names main reads);
+ (h) every concrete `to_json` (== SX(self, True), default of the real signature) and `ExtractionInterface.from_json` (== DESERDC(data));
+ (i) `FileMetadataInterface.populate_from_path` (str into the four path fields), `__post_init__` idempotence, `_get_field_types`.
 """
 import ast
 import json
@@ -378,6 +383,16 @@ def ser_comp_specs(ex, st, n, kind, what):
 # helpers whose contract exists only while the helper does (inlining a helper into its caller is a harmless edit: the caller's own
 # contract then covers the inlined code)
 OPTIONAL_HELPERS = {f"{SER_PY}::_get_field_types", f"{CLI_PY}::_build_parser"}
+
+
+def post_report(c, rep):
+    """Obligations that exist only while an optional helper does (its own, and the call-site preconditions of its contract in the
+    callers) follow the code: checked and counted like any other, but not locked (`volatile`) -- inlining the helper is a harmless edit,
+    and the caller's own locked obligations are the vacuity guard."""
+    names = [t.split("::")[1] for t in OPTIONAL_HELPERS]
+    for o in rep.obligations:
+        if any(n in o.get("id", "") for n in names):
+            o["volatile"] = True
 
 
 def _exists(target):
